@@ -80,7 +80,7 @@ def run_checks(preamble, checks, per_check_ms=20000, jobs=None, solver='z3', tac
     if chunk is None:
         chunk = max(1, min(60, (len(checks) + jobs - 1) // jobs))
     parts = [checks[i:i + chunk] for i in range(0, len(checks), chunk)]
-    if solver != 'z3' and tactic == 'qfnra-nlsat':
+    if solver == 'cvc5':
         tactic = None
     def one(part):
         if solver == 'cvc5':
